@@ -103,8 +103,27 @@ def width_value(rng, fd, mode):
     return ["date", dates.dt_tuple(d)]
 
 
+def zero_width_value(rng, fd):
+    """the values that fit a field of width 0: a missing value of any spelling, and the empty literal"""
+    return rng.choice([None, None, ["nan"], ["nat"]] + ([["str", ""], ["str", ""]] if fd["k"] == "lit" else []))
+
+
+def zero_width_field(rng, start, kinds=("lit", "int", "float", "date")):
+    """a field of width 0 (it owns no column; what it contributes is its span end: a zero-width field past the last
+    column declares the full width of a card image)"""
+    k = rng.choice(kinds)
+    fd = {"k": k, "size": 0, "start": start}
+    if k == "float":
+        fd.update({"dd": rng.randint(0, 2), "fmt": rng.choice("FfE"), "sep": rng.choice(".,")})
+    elif k == "date":
+        fd.update({"formats": [rng.choice(["%m/%d", "%H%M", "%Y", "%Y/%m/%d"])], "aslist": rng.random() < 0.3})
+    return fd
+
+
 def fit_value(rng, fd, mode):
     """a value that certainly fits (ref_fits); a missing value when none is found"""
+    if fd["size"] == 0:
+        return zero_width_value(rng, fd)
     for _ in range(8):
         v = width_value(rng, fd, mode)
         if ref_fits(fd, v, mode):
@@ -139,7 +158,11 @@ class CHECK(Check):
             "order), then given 1-3 other layouts through the public fields setter (new Field objects; or a rearrangement of the "
             "objects it has - some dropped, some new, another order) or by moving its Field objects through their "
             "starting_position / ending_position setters, with 0-2 records written through each earlier layout; every record is "
-            "judged by the oracle against the layout the Line has at that moment, the model follows with SetFields.")
+            "judged by the oracle against the layout the Line has at that moment, the model follows with SetFields. "
+            "Fields of width 0 (every kind, str and bytes; missing values and the empty literal are what fits): in the enumeration "
+            "(a) over every start and target length (shorter than, equal to and beyond the span end), in 8% of the write histories "
+            "(a') at columns 0..12, and 1-2 of them in 20% of the multi-field layouts (b, b') anywhere in the declaration order - "
+            "past the furthest end of the other fields (declaring the full width of the record), at it, or inside the layout.")
     exhaustive = True
 
     def entry_of(self, case):
@@ -148,18 +171,18 @@ class CHECK(Check):
     def gen(self, tier, rng):
         S = 5 if tier == "quick" else 8
         for kind in ("lit", "int", "float", "date"):
-            for size in range(1, S + 1):
+            for size in range(0, S + 1):
                 for start in range(0, 6 if tier == "thorough" else 4):
                     fds = []
                     if kind == "float":
                         for dd in (0, 1, 2):
                             for fmt, sep in (("F", "."), ("f", ","), ("E", ".")):
-                                if fmt == "E" and size < 6 + dd:
+                                if fmt == "E" and 0 < size < 6 + dd:
                                     continue
                                 fds.append({"k": "float", "size": size, "start": start, "dd": dd, "fmt": fmt, "sep": sep})
                     elif kind == "date":
                         for fmt in ("%m/%d", "%H%M", "%Y"):
-                            if fl.date_width(fmt) <= size:
+                            if fl.date_width(fmt) <= size or size == 0:     # (width 0: missing values only)
                                 fds.append({"k": "date", "size": size, "start": start, "formats": [fmt]})
                     else:
                         fds.append({"k": kind, "size": size, "start": start})
@@ -169,6 +192,8 @@ class CHECK(Check):
                             # terminator; padding must not touch it)
                             for content in (("#" * ln), ("ab\tc 0123456789xyz~"[:ln] if ln <= 18 else "z" * ln), ("x\n \t\n\n\r \n" * 4)[:ln]):
                                 for v in small_values(fd):
+                                    if size == 0 and not (v is None or v[0] in ("nan", "nat") or v == ["str", ""]):
+                                        continue        # nothing else fits a field of width 0
                                     for mode in ("str", "bytes"):
                                         if mode == "bytes" and (fd["k"] in ("int", "float") and size not in (2, 4, 8)):
                                             continue
@@ -181,7 +206,9 @@ class CHECK(Check):
         for _ in range(2500 if tier == "quick" else 40000):
             start = rng.randint(0, 5)
             r = rng.random()
-            if r < 0.3:
+            if r < 0.08:
+                fd = zero_width_field(rng, rng.randint(0, 12))
+            elif r < 0.3:
                 fd = textual_field(rng, start)
             elif r < 0.65:
                 fd = fl.gen_field(rng, start=start)
@@ -265,6 +292,13 @@ class CHECK(Check):
             i = rng.randrange(len(fs))
             j = rng.choice([k for k in range(len(fs)) if k != i])
             fs[i] = dict(fs[i], start=max(0, fs[j]["start"] + rng.choice([0, 0, 1, -1, fs[j]["size"] - 1])))
+        if rng.random() < 0.2:
+            # 1-2 fields of width 0 declared anywhere in the order: past the furthest end (declaring the full width of the
+            # record), at the furthest end, inside the layout. They own no column; the line is as long as the furthest span end.
+            end = max(fd["start"] + fd["size"] for fd in fs)
+            for _ in range(rng.randint(1, 2)):
+                at = rng.choice([end + rng.randint(1, 12), end + rng.randint(1, 12), end, rng.randint(0, end)])
+                fs.insert(rng.randint(0, len(fs)), zero_width_field(rng, at, ("lit", "date") if binary else ("lit", "int", "float", "date")))
         return fs
 
     @staticmethod
@@ -355,7 +389,7 @@ class CHECK(Check):
         """one value per field; certain: every value certainly fits (ref_fits), else the model decides"""
         vals = []
         for fd in fs:
-            if certain:
+            if certain or fd["size"] == 0:
                 vals.append(fit_value(rng, fd, "bytes" if binary else "str"))
                 continue
             v = fl.gen_value(rng, fd)
@@ -623,6 +657,9 @@ class CHECK(Check):
                 d["field_history_renderings_of_%s" % ("different_widths" if len(ws) > 1 else "one_width")] = 1
             if is_textual(case["fd"]):
                 d["field_textual_date_format_oracle_only"] = 1
+            if case["fd"]["size"] == 0:
+                e = case["fd"]["start"]
+                d["field_zero_width_%s" % ("target_shorter_than_span_end" if len(case["target"]) < e else "target_reaches_span_end")] = 1
             if case["v"] and case["v"][0] == "date" and case["v"][1][0] < 1000:
                 d["date_year_below_1000"] = 1
             return d
@@ -632,6 +669,10 @@ class CHECK(Check):
                 d["line_earlier_records_%d" % len(case["history"])] = 1
             if not self.comparable(case):
                 d["line_textual_date_format_oracle_only"] = 1
+            if any(fd["size"] == 0 for fd in case["fields"]):
+                end = max(fd["start"] + fd["size"] for fd in case["fields"])
+                wide = max([fd["start"] + fd["size"] for fd in case["fields"] if fd["size"]] or [0])
+                d["line_zero_width_field_%s" % ("is_the_furthest_end" if wide < end else "inside_the_layout")] = 1
             if "before" in case:
                 stages = self.line_stages(case)
                 d["line_relayout_earlier_layouts_%d" % (len(stages) - 1)] = 1
